@@ -62,7 +62,7 @@ SKIPLIST_KANI = [_ki('skiplist_comparators', tier='quick', timeout=300)] + \
 PROPS = {
     'C01': {
         'level': 'proof',
-        'verus': [{'group': 'shard_core'}, _sg('shard_strings'), {'group': 'shard_sweeper', 'units': ['rename_same_shard', 'rename_cross_shard']}, _cg('cmd_strings', True), _cg('srv_strings'), {'group': 'srv_conn'}],
+        'verus': [{'group': 'shard_core'}, _sg('shard_strings'), {'group': 'shard_sweeper', 'units': ['rename_same_shard', 'rename_cross_shard']}, _cg('cmd_strings', True), _cg('srv_strings'), {'group': 'srv_conn'}, _cg('exec_strings')],
         'kani': SETRANGE_KANI,
         'tables': [{'name': 'dispatch_table', 'kind': 'dispatch'}],
         'explanation': 'kernel-scoped: storage-engine string/key functions proved against Redis-semantics spec functions on one shard; handlers/dispatch are unverified surroundings',
@@ -70,6 +70,7 @@ PROPS = {
     'C02': {
         'level': 'proof',
         'verus': [{'group': 'shard_core'}, _sg('shard_strings'), _sg('shard_lists'), _sg('shard_sweeper'), _sg('shard_sets'), _sg('shard_hashes'), _sg('shard_zsets'), {'group': 'shard_flush', 'exclude_units': SHARD_VALUE_UNITS},
+                  {'group': 'exec_strings', 'units': ['exec_set']},
                   {'group': 'srv_strings', 'units': ['handle_ttl', 'handle_expire', 'handle_setex', 'handle_psetex', 'handle_set', 'handle_setnx', 'handle_renamenx']}],
         'explanation': 'deadline-index invariant index_ok preserved by every shard operation under contract; lazy expiry of get/exists/set_nx; ttl arithmetic',
     },
@@ -89,7 +90,7 @@ PROPS = {
         # C06 = the safety obligations (overflow, bounds, slice ranges, unwrap, preconditions of callees such as the
         # allocation budget) of EVERY unit under contract, for all argument values
         'verus': [{'group': g, 'kinds': ['safety', 'requires-at-call', 'decreases', 'invariant']} for g in
-                  ['shard_core', 'shard_strings', 'shard_lists', 'shard_sweeper', 'shard_sets', 'shard_hashes', 'shard_zsets', 'cmd_strings', 'cmd_lists', 'cmd_sets', 'cmd_hashes', 'c03_lists_arith', 'c04_zset_arith', 'c19_scan', 'c20_parser', 'c20_serializer', 'c10_bgsave', 'c11_aof', 'c09_rdb', 'c13_blocking', 'c07_transactions', 'shard_flush', 'c14_pubsub', 'srv_strings', 'srv_zsets', 'cmd_scan', 'cmd_setops']]
+                  ['shard_core', 'shard_strings', 'shard_lists', 'shard_sweeper', 'shard_sets', 'shard_hashes', 'shard_zsets', 'cmd_strings', 'cmd_lists', 'cmd_sets', 'cmd_hashes', 'c03_lists_arith', 'c04_zset_arith', 'c19_scan', 'c20_parser', 'c20_serializer', 'c10_bgsave', 'c11_aof', 'c09_rdb', 'c13_blocking', 'c07_transactions', 'shard_flush', 'c14_pubsub', 'srv_strings', 'srv_zsets', 'cmd_scan', 'cmd_setops', 'exec_strings']]
                  # server-level units: their index/slice/overflow/unwrap/termination obligations only (their call preconditions are model permissions, not crashes)
                  + [{'group': g, 'kinds': ['safety', 'decreases']} for g in ['srv_exec', 'srv_frame', 'srv_conn', 'srv_auth', 'srv_push', 'srv_notify', 'srv_aof', 'srv_select', 'srv_wake', 'srv_pubsub']],
         'kani': STREAM_KANI[:1] + RDB_TOTAL_KANI,
